@@ -116,9 +116,11 @@ maildir_close(struct maildir *md)
 		struct maildir_entry me;
 
 		/* Best effort removal of the temporary maildir. */
-		rewinddir(md->md_dir);
-		while (maildir_walk(md, &me) == 1)
-			(void)unlinkat(me.e_dirfd, me.e_path, 0);
+		if (md->md_dir != NULL) {
+			rewinddir(md->md_dir);
+			while (maildir_walk(md, &me) == 1)
+				(void)unlinkat(me.e_dirfd, me.e_path, 0);
+		}
 		(void)rmdir(md->md_path);
 		(void)rmdir(md->md_root);
 	}
@@ -420,10 +422,12 @@ maildir_stdin(struct maildir *md, const struct environment *env)
 	if (pathjoin(md->md_root, sizeof(md->md_root), env->ev_tmpdir,
 	    "mdsort-XXXXXXXX") == NULL) {
 		warnc(ENAMETOOLONG, "%s", __func__);
+		md->md_root[0] = '\0';
 		return 1;
 	}
 	if (mkdtemp(md->md_root) == NULL) {
 		warn("mkdtemp");
+		md->md_root[0] = '\0';
 		return 1;
 	}
 
